@@ -1671,3 +1671,1402 @@ Proof.
     eapply logged_from; [exact Hl1|]. exact (logged_trans _ _ _ _ _ Hlg Hl3).
   - intros w2 (_ & _ & Hn & _). rewrite Hs1 in Hn. change (kcls k') with (kcls k) in Hn. congruence.
 Qed.
+
+
+(* ######################################################################## *)
+(* ROUND 2                                                                   *)
+(* ######################################################################## *)
+
+(* ======================================================================== *)
+(* 7. the entry programs and the direct map operations, side by side         *)
+(* ======================================================================== *)
+Section Observables.
+Context {K V Q T : Type} (E : env K V Q T) (debug : bool).
+Context (ck : K -> N) (cq : Q -> N) (HL : Lawful E ck cq).
+Notation M := (M K V T). Notation world := (world K V T). Notation map := (map K V). Notation kv := (K * V)%type.
+
+(* what a caller can observe of an outcome: the result (None = it panicked),
+   the whole container (every slot, not only the live prefix) and the event
+   log.  The callback state is NOT part of it. *)
+Definition obs {A} (r : res K V T A) : option (option A * map * list event) :=
+  match r with
+  | Ok a w => Some (Some a, self w, log w)
+  | Panic w => Some (None, self w, log w)
+  | UB => None
+  end.
+
+Lemma obs_ok_of_wp {A} (c : M A) (a : A) (m : map) (l : list event) (w : world) :
+  wp c (fun a' w' => a' = a /\ self w' = m /\ log w' = l) (fun _ => False) w ->
+  obs (c w) = Some (Some a, m, l).
+Proof. unfold wp, obs. destruct (c w) as [a' w'|w'|]; [|intros []|intros []]. intros (-> & -> & ->). reflexivity. Qed.
+
+Lemma obs_panic_of_wp {A} (c : M A) (m : map) (l : list event) (w : world) :
+  wp c (fun _ _ => False) (fun w' => self w' = m /\ log w' = l) w ->
+  obs (c w) = Some (None, m, l).
+Proof. unfold wp, obs. destruct (c w) as [a' w'|w'|]; [intros []| |intros []]. intros (-> & ->). reflexivity. Qed.
+
+(* the container after insert_ii *)
+Definition ins_self (m : map) (k : K) (v : V) (u : bool) : map :=
+  match find_idx ck (ck k) (elems m) with
+  | Some i => match nth_error (elems m) i with
+              | Some (k0, v0) => set_slot_m m i (Some (if u then (k, v) else (k0, v)))
+              | None => m
+              end
+  | None => set_len_m (set_slot_m m (len m) (Some (k, v))) (S (len m))
+  end.
+
+(* insert_ii: the exact container and the exact callback state on normal return *)
+Lemma insert_ii_selfcb k v u (w : world) :
+  WF (self w) ->
+  wp (insert_ii E debug k v u)
+     (fun _ w' => self w' = ins_self (self w) k v u /\
+                  cb w' = scan_cb E k (scan_pref ck k (elems (self w))) (cb w))
+     (fun _ => True) w.
+Proof.
+  intros Hw. unfold insert_ii. apply wp_bind. apply wp_on_unwind_nopanic.
+  eapply wp_mono; [apply (scan_k_cb E ck cq HL k w Hw) | | intros w' []]; cbn beta.
+  intros r w1 (Hs1 & Hl1 & -> & Hc1). unfold ins_self.
+  destruct (find_idx ck (ck k) (elems (self w))) as [i|] eqn:Hf.
+  - destruct (find_idx_inv ck (ck k) _ _ Hf) as [[p [Hp Hc]] _].
+    destruct (elems_nth_slot _ _ _ Hw Hp) as [Hi Hsl]. rewrite Hp. destruct p as [k0 v0].
+    destruct u.
+    + apply wp_bind. eapply wp_p_replace; [rewrite Hs1; exact Hsl|]. apply wp_ret. simp_w. rewrite Hs1. auto.
+    + apply wp_bind. eapply wp_p_replace; [rewrite Hs1; exact Hsl|]. apply wp_ret. simp_w. rewrite Hs1. auto.
+  - apply wp_bind. apply wp_get_len. apply wp_bind. apply wp_get_cap. rewrite Hs1.
+    apply wp_bind. apply wp_on_unwind. apply wp_bind. apply wp_dbg_assert.
+    + intros _. apply wp_check_index; rewrite Hs1.
+      * intros Hc. apply wp_bind. apply wp_p_write_checked; rewrite Hs1.
+        -- intros _. apply wp_bind. apply wp_set_len. apply wp_ret. simp_w. rewrite ?Hs1. auto.
+        -- intros _. exact I.
+      * intros _. eapply wp_mono; [apply (unwind_args_lawful E k v) | auto | intros ? []].
+    + intros _ _. eapply wp_mono; [apply (unwind_args_lawful E k v) | auto | intros ? []].
+Qed.
+
+Lemma insert_ii_exact k v u (w : world) :
+  WF (self w) ->
+  wp (insert_ii E debug k v u)
+     (fun r w' =>
+        self w' = ins_self (self w) k v u /\
+        cb w' = scan_cb E k (scan_pref ck k (elems (self w))) (cb w) /\
+        WF (self w') /\ cap (self w') = cap (self w) /\ log w' = log w /\
+        (elems (self w'), fst r, snd r) = l_insert ck (elems (self w)) k v u /\
+        (find_idx ck (ck k) (elems (self w)) = None -> len (self w) < cap (self w)))
+     (fun w' =>
+        self w' = self w /\ logged w w' (ev_drops (idV E v ++ idK E k)) /\
+        find_idx ck (ck k) (elems (self w)) = None /\ len (self w) = cap (self w)) w.
+Proof.
+  intros Hw.
+  eapply wp_mono; [apply (wp_conj _ _ _ _ _ _ (insert_ii_selfcb k v u w Hw)
+                            (insert_ii_lawful E debug ck cq HL k v u w Hw)) | |]; cbn beta.
+  - intros r w' [[H1 H2] H3]. auto.
+  - intros w' [_ H]. exact H.
+Qed.
+
+(* Map::insert with the exact container; the callback state it leaves is the
+   one entry(k) leaves (entry_cb) *)
+Lemma insert_exact k v (w : world) :
+  WF (self w) ->
+  wp (insert E debug k v)
+     (fun r w' =>
+        self w' = ins_self (self w) k v false /\
+        cb w' = entry_cb E ck k (elems (self w)) (cb w) /\
+        r = option_map snd (snd (l_insert ck (elems (self w)) k v false)) /\
+        logged w w' (match snd (l_insert ck (elems (self w)) k v false) with
+                     | Some (k', _) => ev_drops (idK E k') | None => [] end) /\
+        (find_idx ck (ck k) (elems (self w)) = None -> len (self w) < cap (self w)) /\
+        WF (self w') /\ elems (self w') = fst (fst (l_insert ck (elems (self w)) k v false)))
+     (fun w' => self w' = self w /\ logged w w' (ev_drops (idV E v ++ idK E k)) /\
+                find_idx ck (ck k) (elems (self w)) = None /\ len (self w) = cap (self w)) w.
+Proof.
+  intros Hw. unfold insert. apply wp_bind.
+  eapply wp_mono; [apply (insert_ii_exact k v false w Hw) | | intros w' H; exact H]; cbn beta.
+  intros [i e] w1 (Hs1 & Hc1 & Hw1 & _ & Hl1 & Hins & Hroom). cbn [fst snd] in Hins.
+  rewrite <- Hins. cbn [fst snd]. unfold entry_cb, l_insert in *.
+  destruct (find_idx ck (ck k) (elems (self w))) as [j|] eqn:Hf.
+  - destruct (find_idx_inv ck _ _ _ Hf) as [[[k0 v0] [Hp _]] _]. rewrite Hp in Hins.
+    injection Hins as He1 _ ->. cbn [keep_value]. apply wp_bind.
+    eapply wp_mono; [apply (drop_key_cb E ck cq HL) | | intros ? []]; cbn beta.
+    intros _ w2 (Hs2 & Hl2 & Hc2). apply wp_ret. cbn [option_map snd].
+    split; [congruence|]. split; [rewrite Hc2, Hc1; reflexivity|]. split; [reflexivity|].
+    split; [eapply logged_from; eassumption|]. split; [discriminate|]. rewrite Hs2. split; [exact Hw1 | reflexivity].
+  - injection Hins as He1 _ ->. cbn [keep_value]. apply wp_ret. cbn [option_map].
+    split; [exact Hs1|]. split; [|split; [reflexivity|split; [|split; [exact Hroom | split; [exact Hw1 | reflexivity]]]]].
+    + rewrite Hc1. unfold scan_pref. rewrite Hf. reflexivity.
+    + unfold logged. rewrite app_nil_r. exact Hl1.
+Qed.
+
+Lemma vac_insert_exact k v (w : world) :
+  WF (self w) -> find_idx ck (ck k) (elems (self w)) = None ->
+  wp (vac_insert E debug k v)
+     (fun i w' => i = len (self w) /\ self w' = ins_self (self w) k v false /\ log w' = log w /\
+                  len (self w) < cap (self w))
+     (fun w' => self w' = self w /\ logged w w' (ev_drops (idV E v ++ idK E k)) /\
+                len (self w) = cap (self w)) w.
+Proof.
+  intros Hw Hf. unfold vac_insert. apply wp_bind.
+  eapply wp_mono; [apply (insert_ii_exact k v false w Hw) | |]; cbn beta.
+  - intros [index e] w1 (Hs1 & _ & Hw1 & _ & Hl1 & Hins & Hroom). cbn [fst snd] in Hins.
+    unfold l_insert in Hins. rewrite Hf in Hins. injection Hins as He Hidx Hel. subst index e.
+    apply wp_bind. apply wp_ret.
+    assert (Hi : length (elems (self w)) < len (self w1)).
+    { rewrite <- (elems_length _ Hw1), He, app_length. cbn [length]. lia. }
+    destruct (WF_live _ _ Hw1 Hi) as [p Hp].
+    apply wp_bind. eapply wp_p_ref; [exact Hp|]. apply wp_ret.
+    split; [apply elems_length; exact Hw|]. auto.
+  - intros w' (Hs & Hlg & _ & Hc). auto.
+Qed.
+
+Lemma occ_insert_exact i v (w : world) :
+  WF (self w) -> forall k0 v0, nth_error (elems (self w)) i = Some (k0, v0) ->
+  wp (occ_insert i v)
+     (fun r w' => r = v0 /\ self w' = set_slot_m (self w) i (Some (k0, v)) /\ log w' = log w)
+     (fun _ => False) w.
+Proof.
+  intros Hw k0 v0 Hp. destruct (elems_nth_slot _ _ _ Hw Hp) as [Hi Hsl].
+  unfold occ_insert. apply wp_bind. eapply wp_p_replace; [exact Hsl|]. apply wp_ret. simp_w. auto.
+Qed.
+
+(* two programs with the same functional specification are observably equal *)
+Lemma obs_eq_of_wp {A} (c1 c2 : M A) (a : A) (m mp : map) (l lp : list event) (Pn Pp : Prop) (w : world) :
+  wp c1 (fun a' w' => a' = a /\ self w' = m /\ log w' = l /\ Pn) (fun w' => self w' = mp /\ log w' = lp /\ Pp) w ->
+  wp c2 (fun a' w' => a' = a /\ self w' = m /\ log w' = l /\ Pn) (fun w' => self w' = mp /\ log w' = lp /\ Pp) w ->
+  ~ (Pn /\ Pp) ->
+  obs (c1 w) = obs (c2 w).
+Proof.
+  unfold wp, obs. intros H1 H2 Hx.
+  destruct (c1 w) as [a1 w1|w1|]; destruct (c2 w) as [a2 w2|w2|]; try contradiction.
+  - destruct H1 as (-> & -> & -> & _). destruct H2 as (-> & -> & -> & _). reflexivity.
+  - exfalso. apply Hx. split; [apply H1 | apply H2].
+  - exfalso. apply Hx. split; [apply H2 | apply H1].
+  - destruct H1 as (-> & -> & _). destruct H2 as (-> & -> & _). reflexivity.
+Qed.
+
+(* ---- (a) entry(k).insert(v) [Occupied or Vacant] is Map::insert(k, v) ---- *)
+Definition entry_insert (k : K) (v : V) : M (option V) :=
+  e <- entry_of E k ;;
+  match e with
+  | Occupied i => o <- occ_insert i v ;; ret (Some o)
+  | Vacant k' => _ <- vac_insert E debug k' v ;; ret None
+  end.
+
+Theorem entry_insert_is_insert k v (w : world) :
+  WF (self w) -> obs (entry_insert k v w) = obs (insert E debug k v w).
+Proof.
+  intros Hw.
+  set (li := l_insert ck (elems (self w)) k v false).
+  apply (obs_eq_of_wp _ _ (option_map snd (snd li)) (ins_self (self w) k v false) (self w)
+           (log w ++ match snd li with Some (k', _) => ev_drops (idK E k') | None => [] end)
+           (log w ++ ev_drops (idV E v ++ idK E k))
+           (find_idx ck (ck k) (elems (self w)) = None -> len (self w) < cap (self w))
+           (find_idx ck (ck k) (elems (self w)) = None /\ len (self w) = cap (self w))).
+  - unfold entry_insert. apply wp_bind.
+    eapply wp_mono; [apply (entry_of_lawful E ck cq HL k w Hw) | | intros ? []]; cbn beta.
+    intros e w1 [Hs1 He]. unfold li, ins_self, l_insert.
+    destruct (find_idx ck (ck k) (elems (self w))) as [j|] eqn:Hf.
+    + destruct He as [-> Hl1]. destruct (find_idx_inv ck _ _ _ Hf) as [[[k0 v0] [Hp _]] _]. rewrite Hp.
+      apply wp_bind.
+      eapply wp_mono; [apply (occ_insert_exact j v w1); [rewrite Hs1; exact Hw | rewrite Hs1; exact Hp] | | intros ? []];
+        cbn beta.
+      intros o w2 (-> & Hs2 & Hl2). apply wp_ret. cbn [option_map snd]. rewrite Hs2, Hs1, Hl2.
+      split; [reflexivity|]. split; [reflexivity|]. split; [exact Hl1 | discriminate].
+    + destruct He as [-> Hl1]. apply wp_bind.
+      eapply wp_mono; [apply (vac_insert_exact k v w1); rewrite Hs1; assumption | |]; cbn beta; rewrite Hs1.
+      * intros i w2 (_ & Hs2 & Hl2 & Hlt). apply wp_ret. rewrite Hs2. unfold ins_self. rewrite Hf.
+        cbn [option_map snd]. split; [reflexivity|]. split; [reflexivity|].
+        split; [rewrite app_nil_r; congruence | intros _; exact Hlt].
+      * intros w2 (Hs2 & Hl2 & Hc). split; [congruence|].
+        split; [unfold logged in Hl2; rewrite Hl2, Hl1; reflexivity | auto].
+  - eapply wp_mono; [apply (insert_exact k v w Hw) | |]; cbn beta.
+    + intros r w' (H1 & _ & H2 & H3 & H4 & _). auto.
+    + intros w' (H1 & H2 & H3). auto.
+  - intros [H1 [H2 H3]]. specialize (H1 H2). lia.
+Qed.
+
+(* remove_index_read runs no user code: the container it leaves is a function
+   of the container it starts from *)
+Definition rir_self (m : map) (i : nat) : map :=
+  let n := len m - 1 in
+  if i =? n then {| len := n; slots := upd (slots m) i None |}
+  else match nth_error (slots m) n with
+       | Some (Some q) => {| len := n; slots := upd (upd (upd (slots m) i None) n None) i (Some q) |}
+       | _ => m
+       end.
+
+Lemma remove_index_read_exact i (w : world) :
+  WF (self w) -> i < len (self w) ->
+  wp (remove_index_read debug i)
+     (fun p w' => nth_error (elems (self w)) i = Some p /\ self w' = rir_self (self w) i /\
+                  log w' = log w /\ cb w' = cb w)
+     (fun _ => False) w.
+Proof.
+  intros Hw Hi. pose proof Hw as [Hl Hs]. unfold remove_index_read.
+  destruct (Hs i Hi) as [p Hp].
+  assert (Hpe : nth_error (elems (self w)) i = Some p) by (apply (elems_nth (self w) i p Hw); [lia | exact Hp]).
+  apply wp_bind. eapply wp_p_read; [exact Hp|].
+  destruct (len (self w)) as [|n] eqn:Hn; [lia|].
+  apply wp_bind. eapply wp_dec_len; [simp_w; exact Hn|].
+  apply wp_bind. apply wp_get_len. simp_w.
+  unfold rir_self. rewrite Hn. replace (S n - 1) with n by lia.
+  destruct (Nat.eqb_spec i n) as [->|Hne].
+  - apply wp_bind. apply wp_ret. apply wp_ret. simp_w.
+    split; [exact Hpe|]. split; [reflexivity|]. split; reflexivity.
+  - destruct (Hs n ltac:(lia)) as [q Hq]. rewrite Hq.
+    apply wp_bind. apply wp_bind.
+    eapply wp_p_read with (p := q).
+    { simp_w. rewrite nth_error_upd_neq by auto. exact Hq. }
+    simp_w.
+    apply wp_p_write.
+    { unfold cap; simp_w. rewrite !upd_length. fold (cap (self w)). lia. }
+    apply wp_ret. simp_w.
+    split; [exact Hpe|]. split; [reflexivity|]. split; reflexivity.
+Qed.
+
+(* ---- (b), (c) OccupiedEntry::remove / remove_entry and Map::remove / remove_entry ---- *)
+Definition rm_self (m : map) (c : N) : map :=
+  match find_idx ck c (elems m) with Some j => rir_self m j | None => m end.
+
+Lemma remove_exact q (w : world) :
+  WF (self w) ->
+  wp (remove E debug q)
+     (fun r w' => r = option_map snd (snd (l_remove ck (elems (self w)) (cq q))) /\
+                  self w' = rm_self (self w) (cq q) /\
+                  log w' = log w ++ match snd (l_remove ck (elems (self w)) (cq q)) with
+                                    | Some (k', _) => ev_drops (idK E k') | None => [] end)
+     (fun _ => False) w.
+Proof.
+  intros Hw. unfold remove. apply wp_bind.
+  eapply wp_mono; [apply (scan_lawful ck (test_q E q) (cq q)); [apply (cls_test_q E ck cq HL) | exact Hw] | | intros w' []]; cbn beta.
+  intros r w1 [[Hs1 Hl1] ->]. unfold l_remove, rm_self.
+  destruct (find_idx ck (cq q) (elems (self w))) as [i|] eqn:Hf; cbn [fst snd].
+  - pose proof (find_idx_lt ck _ _ _ Hf) as Hi. rewrite (elems_length _ Hw) in Hi.
+    apply wp_bind.
+    eapply wp_mono; [apply (remove_index_read_exact i w1); rewrite Hs1; assumption | | intros ? []]; cbn beta.
+    rewrite Hs1. intros p w2 (Hp & Hs2 & Hl2 & _).
+    apply wp_bind. eapply wp_mono; [apply (drop_key_lawful E ck cq HL) | | intros ? []]; cbn beta.
+    intros _ w3 [Hs3 Hlg]. apply wp_ret. rewrite Hp. destruct p as [k0 v0]. cbn [fst snd option_map] in *.
+    split; [reflexivity|]. split; [congruence|]. unfold logged in Hlg. congruence.
+  - apply wp_ret. cbn [option_map]. split; [reflexivity|]. split; [exact Hs1|]. rewrite app_nil_r. exact Hl1.
+Qed.
+
+Lemma remove_entry_exact q (w : world) :
+  WF (self w) ->
+  wp (remove_entry E debug q)
+     (fun r w' => r = snd (l_remove ck (elems (self w)) (cq q)) /\
+                  self w' = rm_self (self w) (cq q) /\ log w' = log w)
+     (fun _ => False) w.
+Proof.
+  intros Hw. unfold remove_entry. apply wp_bind.
+  eapply wp_mono; [apply (scan_lawful ck (test_q E q) (cq q)); [apply (cls_test_q E ck cq HL) | exact Hw] | | intros w' []]; cbn beta.
+  intros r w1 [[Hs1 Hl1] ->]. unfold l_remove, rm_self.
+  destruct (find_idx ck (cq q) (elems (self w))) as [i|] eqn:Hf; cbn [fst snd].
+  - pose proof (find_idx_lt ck _ _ _ Hf) as Hi. rewrite (elems_length _ Hw) in Hi.
+    apply wp_bind.
+    eapply wp_mono; [apply (remove_index_read_exact i w1); rewrite Hs1; assumption | | intros ? []]; cbn beta.
+    rewrite Hs1. intros p w2 (Hp & Hs2 & Hl2 & _). apply wp_ret. rewrite Hp.
+    split; [reflexivity|]. split; [exact Hs2 | congruence].
+  - apply wp_ret. auto.
+Qed.
+
+(* the entry side: entry(k), then remove() on Occupied; a Vacant entry is dropped *)
+Definition entry_remove (k : K) : M (option V) :=
+  e <- entry_of E k ;;
+  match e with
+  | Occupied i => v <- occ_remove E debug i ;; ret (Some v)
+  | Vacant k' => drop_key E k' ;; ret None
+  end.
+Definition entry_remove_entry (k : K) : M (option kv) :=
+  e <- entry_of E k ;;
+  match e with
+  | Occupied i => p <- occ_remove_entry debug i ;; ret (Some p)
+  | Vacant k' => drop_key E k' ;; ret None
+  end.
+
+(* same result, same container; the entry side's log has the Drop of the
+   supplied key object k (entry(k) consumed it) in front of what remove logs *)
+Theorem entry_remove_vs_remove k q (w : world) :
+  WF (self w) -> cq q = ck k ->
+  let r := option_map snd (snd (l_remove ck (elems (self w)) (ck k))) in
+  let evs := match snd (l_remove ck (elems (self w)) (ck k)) with
+             | Some (k0, _) => ev_drops (idK E k0) | None => [] end in
+  obs (entry_remove k w) = Some (Some r, rm_self (self w) (ck k), log w ++ ev_drops (idK E k) ++ evs) /\
+  obs (remove E debug q w) = Some (Some r, rm_self (self w) (ck k), log w ++ evs).
+Proof.
+  intros Hw Hq r evs. split.
+  - apply obs_ok_of_wp. unfold entry_remove. apply wp_bind.
+    eapply wp_mono; [apply (entry_of_lawful E ck cq HL k w Hw) | | intros ? []]; cbn beta.
+    intros e w1 [Hs1 He]. unfold r, evs, l_remove, rm_self.
+    destruct (find_idx ck (ck k) (elems (self w))) as [j|] eqn:Hf; cbn [fst snd].
+    + destruct He as [-> Hl1]. pose proof (find_idx_lt ck _ _ _ Hf) as Hj. rewrite (elems_length _ Hw) in Hj.
+      apply wp_bind. unfold occ_remove. apply wp_bind.
+      eapply wp_mono; [apply (remove_index_read_exact j w1); rewrite Hs1; assumption | | intros ? []]; cbn beta.
+      rewrite Hs1. intros p w2 (Hp & Hs2 & Hl2 & _).
+      apply wp_bind. eapply wp_mono; [apply (drop_key_lawful E ck cq HL) | | intros ? []]; cbn beta.
+      intros _ w3 [Hs3 Hlg]. apply wp_ret. apply wp_ret. rewrite Hp. destruct p as [k0 v0]. cbn [fst snd option_map] in *.
+      split; [reflexivity|]. split; [congruence|]. unfold logged in *. rewrite Hlg, Hl2, Hl1, app_assoc. reflexivity.
+    + destruct He as [-> Hl1]. apply wp_bind.
+      eapply wp_mono; [apply (drop_key_lawful E ck cq HL) | | intros ? []]; cbn beta.
+      intros _ w2 [Hs2 Hlg]. apply wp_ret. cbn [option_map]. split; [reflexivity|]. split; [congruence|].
+      unfold logged in Hlg. rewrite Hlg, Hl1, app_nil_r. reflexivity.
+  - apply obs_ok_of_wp.
+    eapply wp_mono; [apply (remove_exact q w Hw) | | intros ? []]; cbn beta. rewrite Hq.
+    intros r' w' (H1 & H2 & H3). auto.
+Qed.
+
+Theorem entry_remove_entry_vs_remove_entry k q (w : world) :
+  WF (self w) -> cq q = ck k ->
+  let r := snd (l_remove ck (elems (self w)) (ck k)) in
+  obs (entry_remove_entry k w) = Some (Some r, rm_self (self w) (ck k), log w ++ ev_drops (idK E k)) /\
+  obs (remove_entry E debug q w) = Some (Some r, rm_self (self w) (ck k), log w).
+Proof.
+  intros Hw Hq r. split.
+  - apply obs_ok_of_wp. unfold entry_remove_entry. apply wp_bind.
+    eapply wp_mono; [apply (entry_of_lawful E ck cq HL k w Hw) | | intros ? []]; cbn beta.
+    intros e w1 [Hs1 He]. unfold r, l_remove, rm_self.
+    destruct (find_idx ck (ck k) (elems (self w))) as [j|] eqn:Hf; cbn [fst snd].
+    + destruct He as [-> Hl1]. pose proof (find_idx_lt ck _ _ _ Hf) as Hj. rewrite (elems_length _ Hw) in Hj.
+      apply wp_bind. unfold occ_remove_entry.
+      eapply wp_mono; [apply (remove_index_read_exact j w1); rewrite Hs1; assumption | | intros ? []]; cbn beta.
+      rewrite Hs1. intros p w2 (Hp & Hs2 & Hl2 & _). apply wp_ret. rewrite Hp.
+      split; [reflexivity|]. split; [exact Hs2|]. unfold logged in Hl1. congruence.
+    + destruct He as [-> Hl1]. apply wp_bind.
+      eapply wp_mono; [apply (drop_key_lawful E ck cq HL) | | intros ? []]; cbn beta.
+      intros _ w2 [Hs2 Hlg]. apply wp_ret. split; [reflexivity|]. split; [congruence|].
+      unfold logged in Hlg. congruence.
+  - apply obs_ok_of_wp.
+    eapply wp_mono; [apply (remove_entry_exact q w Hw) | | intros ? []]; cbn beta. rewrite Hq.
+    intros r' w' (H1 & H2 & H3). auto.
+Qed.
+
+(* ---- (d) OccupiedEntry::get and Map::get ---- *)
+Definition entry_get (k : K) : M (option nat) :=
+  e <- entry_of E k ;;
+  match e with
+  | Occupied i => j <- occ_get i ;; ret (Some j)
+  | Vacant k' => drop_key E k' ;; ret None
+  end.
+
+Theorem entry_get_vs_get k q (w : world) :
+  WF (self w) -> cq q = ck k ->
+  let r := find_idx ck (ck k) (elems (self w)) in
+  obs (entry_get k w) = Some (Some r, self w, log w ++ ev_drops (idK E k)) /\
+  obs (get E q w) = Some (Some r, self w, log w).
+Proof.
+  intros Hw Hq r. split.
+  - apply obs_ok_of_wp. unfold entry_get. apply wp_bind.
+    eapply wp_mono; [apply (entry_of_lawful E ck cq HL k w Hw) | | intros ? []]; cbn beta.
+    intros e w1 [Hs1 He]. unfold r.
+    destruct (find_idx ck (ck k) (elems (self w))) as [j|] eqn:Hf.
+    + destruct He as [-> Hl1]. destruct (find_idx_slot ck _ _ _ Hw Hf) as [Hj _]. apply wp_bind.
+      eapply wp_mono; [apply (occ_ref_lawful j w1); rewrite Hs1; assumption | | intros ? []]; cbn beta.
+      intros i w2 [-> ->]. apply wp_ret. auto.
+    + destruct He as [-> Hl1]. apply wp_bind.
+      eapply wp_mono; [apply (drop_key_lawful E ck cq HL) | | intros ? []]; cbn beta.
+      intros _ w2 [Hs2 Hlg]. apply wp_ret. split; [reflexivity|]. split; [congruence|].
+      unfold logged in Hlg. congruence.
+  - apply obs_ok_of_wp.
+    eapply wp_mono; [apply (get_lawful E ck cq HL q w Hw) | | intros ? []]; cbn beta. rewrite Hq.
+    intros r' w' [[H1 H2] H3]. auto.
+Qed.
+
+(* ---- (e) entry(k).or_insert(v) and "if !contains_key(q) { insert(k, v) }; &mut self[q]" ---- *)
+Definition direct_or_insert (q : Q) (k : K) (v : V) : M nat :=
+  b <- contains_key E q ;;
+  (if b then drop_key E k ;; drop_val E v else (_ <- insert E debug k v ;; ret tt)) ;;
+  index_mut E q.
+
+Theorem or_insert_is_direct k q v (w : world) :
+  WF (self w) -> cq q = ck k ->
+  obs ((e <- entry_of E k ;; or_insert E debug e v) w) = obs (direct_or_insert q k v w).
+Proof.
+  intros Hw Hq.
+  set (fi := find_idx ck (ck k) (elems (self w))).
+  apply (obs_eq_of_wp _ _ (match fi with Some j => j | None => len (self w) end)
+           (match fi with Some _ => self w | None => ins_self (self w) k v false end) (self w)
+           (log w ++ match fi with Some _ => ev_drops (idK E k) ++ ev_drops (idV E v) | None => [] end)
+           (log w ++ ev_drops (idV E v ++ idK E k))
+           (fi = None -> len (self w) < cap (self w))
+           (fi = None /\ len (self w) = cap (self w))).
+  - apply wp_bind.
+    eapply wp_mono; [apply (entry_of_lawful E ck cq HL k w Hw) | | intros ? []]; cbn beta.
+    intros e w1 [Hs1 He]. unfold fi.
+    destruct (find_idx ck (ck k) (elems (self w))) as [j|] eqn:Hf.
+    + destruct He as [-> Hl1]. cbn [or_insert]. destruct (find_idx_slot ck _ _ _ Hw Hf) as [Hj _].
+      apply wp_bind.
+      eapply wp_mono; [apply (occ_ref_lawful j w1); rewrite Hs1; assumption | | intros ? []]; cbn beta.
+      intros i w2 [-> ->]. apply wp_bind.
+      eapply wp_mono; [apply (drop_val_lawful E ck cq HL) | | intros ? []]; cbn beta.
+      intros _ w3 [Hs3 Hl3]. apply wp_ret. split; [reflexivity|]. split; [congruence|].
+      split; [|discriminate]. unfold logged in *. rewrite Hl3, Hl1, app_assoc. reflexivity.
+    + destruct He as [-> Hl1]. cbn [or_insert].
+      eapply wp_mono; [apply (vac_insert_exact k v w1); rewrite Hs1; assumption | |]; cbn beta; rewrite Hs1.
+      * intros i w2 (-> & Hs2 & Hl2 & Hlt). split; [reflexivity|]. split; [exact Hs2|].
+        split; [rewrite app_nil_r; congruence | intros _; exact Hlt].
+      * intros w2 (Hs2 & Hl2 & Hc). split; [congruence|].
+        split; [unfold logged in Hl2; rewrite Hl2, Hl1; reflexivity | auto].
+  - unfold direct_or_insert. apply wp_bind.
+    eapply wp_mono; [apply (contains_key_lawful E ck cq HL q w Hw) | | intros ? []]; cbn beta.
+    intros b w1 [[Hs1 Hl1] ->]. rewrite Hq. fold fi.
+    destruct fi as [j|] eqn:Hf; unfold fi in Hf.
+    + apply wp_bind. apply wp_bind.
+      eapply wp_mono; [apply (drop_key_lawful E ck cq HL) | | intros ? []]; cbn beta.
+      intros _ w2 [Hs2 Hl2].
+      eapply wp_mono; [apply (drop_val_lawful E ck cq HL) | | intros ? []]; cbn beta.
+      intros _ w3 [Hs3 Hl3].
+      assert (Hs : self w3 = self w) by congruence.
+      eapply wp_mono; [apply (index_mut_lawful E ck cq HL q w3); rewrite Hs; exact Hw | |]; cbn beta; rewrite Hs, Hq.
+      * intros i w4 [[Hs4 Hl4] Hi]. rewrite Hf in Hi. injection Hi as <-.
+        split; [reflexivity|]. split; [congruence|]. split; [|discriminate].
+        unfold logged in *. rewrite Hl4, Hl3, Hl2, Hl1, app_assoc. reflexivity.
+      * intros w4 [_ Hn]. congruence.
+    + apply wp_bind. apply wp_bind.
+      eapply wp_mono; [apply (insert_exact k v w1); rewrite Hs1; exact Hw | |]; cbn beta; rewrite Hs1.
+      * intros r w2 (Hs2 & _ & _ & Hl2 & Hroom & Hw2 & He2). apply wp_ret.
+        unfold l_insert in Hl2, He2. rewrite Hf in Hl2, He2. cbn [fst snd] in Hl2, He2.
+        eapply wp_mono; [apply (index_mut_lawful E ck cq HL q w2 Hw2) | |]; cbn beta; rewrite He2, Hq.
+        -- intros i w3 [[Hs3 Hl3] Hi].
+           rewrite (find_idx_app ck), Hf in Hi. cbn [find_idx fst] in Hi. rewrite N.eqb_refl in Hi.
+           cbn [option_map] in Hi. injection Hi as <-. rewrite Nat.add_0_r, (elems_length _ Hw).
+           split; [reflexivity|]. split; [congruence|]. split; [|intros _; exact (Hroom Hf)].
+           unfold logged in Hl2. rewrite app_nil_r in *. congruence.
+        -- intros w3 [_ Hn]. rewrite (find_idx_app ck), Hf in Hn. cbn [find_idx fst] in Hn.
+           rewrite N.eqb_refl in Hn. discriminate.
+      * intros w2 (Hs2 & Hl2 & _ & Hc). split; [exact Hs2|].
+        split; [unfold logged in Hl2; congruence | auto].
+  - intros [H1 [H2 H3]]. specialize (H1 H2). lia.
+Qed.
+
+End Observables.
+
+(* ======================================================================== *)
+(* 8. chains: any list of and_modify (arbitrary closures), then any terminal *)
+(* ======================================================================== *)
+Lemma nth_error_ext_eq {A} (l l' : list A) : (forall j, nth_error l j = nth_error l' j) -> l = l'.
+Proof.
+  revert l'; induction l as [|h t IH]; intros [|h' t'] H.
+  - reflexivity.
+  - specialize (H 0). discriminate.
+  - specialize (H 0). discriminate.
+  - pose proof (H 0) as H0. cbn [nth_error] in H0. injection H0 as ->. f_equal.
+    apply IH. intros j. exact (H (S j)).
+Qed.
+
+Lemma nth_error_ext_upd {A} (l' l : list A) i x :
+  length l' = length l -> nth_error l' i = Some x ->
+  (forall j, j <> i -> nth_error l' j = nth_error l j) -> l' = upd l i x.
+Proof.
+  revert l i; induction l' as [|h' t' IH]; intros [|h t] i Hlen Hx Hoth; cbn [length] in Hlen; try discriminate.
+  - destruct i; discriminate.
+  - destruct i as [|i]; cbn [nth_error] in Hx; cbn [upd].
+    + injection Hx as ->. f_equal. apply nth_error_ext_eq. intros j. exact (Hoth (S j) ltac:(discriminate)).
+    + pose proof (Hoth 0 ltac:(discriminate)) as H0. cbn [nth_error] in H0. injection H0 as ->. f_equal.
+      apply IH; [lia | exact Hx|]. intros j Hj. apply (Hoth (S j)). lia.
+Qed.
+
+Section Chains2.
+Context {K V Q T : Type} (E : env K V Q T) (debug : bool).
+Context (ck : K -> N) (cq : Q -> N) (HL : Lawful E ck cq).
+Notation M := (M K V T). Notation world := (world K V T). Notation map := (map K V). Notation kv := (K * V)%type.
+
+(* ---- the methods on a bare entry (definitional) ---- *)
+Lemma or_insert_with_occ_eq j (f : T -> option V * T) : or_insert_with E debug (Occupied j) f = occ_into_mut j.
+Proof. reflexivity. Qed.
+Lemma or_insert_with_key_occ_eq j (f : K -> T -> option V * T) :
+  or_insert_with_key E debug (Occupied j) f = occ_into_mut j.
+Proof. reflexivity. Qed.
+Lemma or_insert_occ_eq j v : or_insert E debug (Occupied j) v = (i <- occ_into_mut j ;; drop_val E v ;; ret i).
+Proof. reflexivity. Qed.
+Lemma or_insert_vac_eq k v : or_insert E debug (Vacant k) v = vac_insert E debug k v.
+Proof. reflexivity. Qed.
+Lemma or_insert_with_vac_eq k (f : T -> option V * T) :
+  or_insert_with E debug (Vacant k) f = (v <- on_unwind (unwind_key E k) (call_mk f) ;; vac_insert E debug k v).
+Proof. reflexivity. Qed.
+Lemma or_insert_with_key_vac_eq k (f : K -> T -> option V * T) :
+  or_insert_with_key E debug (Vacant k) f =
+  (v <- on_unwind (unwind_key E k) (call_mk (f k)) ;; vac_insert E debug k v).
+Proof. reflexivity. Qed.
+Lemma entry_key_occ_eq j : @entry_key K V T (Occupied j) = (i <- occ_key j ;; ret (inl i)).
+Proof. reflexivity. Qed.
+Lemma entry_key_vac_eq k : @entry_key K V T (Vacant k) = ret (inr k).
+Proof. reflexivity. Qed.
+Lemma and_modify_vac_eq k (f : modf_t) : @and_modify K V T (Vacant k) f = ret (Vacant k).
+Proof. reflexivity. Qed.
+Lemma and_modify_occ_eq j (f : modf_t) :
+  @and_modify K V T (Occupied j) f = (_ <- occ_get_mut j ;; call_modf f j ;; ret (Occupied j)).
+Proof. reflexivity. Qed.
+
+(* a vacant entry passes through any chain of and_modify untouched: no closure
+   runs, the world is the same *)
+Lemma and_modify_all_vacant_run k (fs : list modf_t) (w : world) :
+  and_modify_all (Vacant k) fs w = Ok (Vacant k) w.
+Proof. induction fs as [|f t IH]; [reflexivity|]. cbn [and_modify_all and_modify]. exact IH. Qed.
+
+(* what a chain of and_modify on slot i can do to a container: same capacity,
+   same length, the same key OBJECTS in the same slots, every slot other than i
+   exactly as it was *)
+Definition am_frame (i : nat) (m m' : map) : Prop :=
+  WF m' /\ cap m' = cap m /\ len m' = len m /\
+  List.map fst (elems m') = List.map fst (elems m) /\
+  forall j, j <> i -> nth_error (elems m') j = nth_error (elems m) j.
+
+Lemma am_frame_refl i m : WF m -> am_frame i m m.
+Proof. intros H. split; [exact H|]. auto. Qed.
+
+Lemma am_frame_trans i m1 m2 m3 : am_frame i m1 m2 -> am_frame i m2 m3 -> am_frame i m1 m3.
+Proof.
+  intros (_ & A2 & A3 & A4 & A5) (B1 & B2 & B3 & B4 & B5).
+  split; [exact B1|]. split; [congruence|]. split; [congruence|]. split; [congruence|].
+  intros j Hj. rewrite B5, A5 by exact Hj. reflexivity.
+Qed.
+
+Lemma am_frame_upd i (m m' : map) k0 v0 v' :
+  WF m -> WF m' -> cap m' = cap m -> nth_error (elems m) i = Some (k0, v0) ->
+  elems m' = upd (elems m) i (k0, v') -> am_frame i m m'.
+Proof.
+  intros Hw Hw' Hc Hp He. split; [exact Hw'|]. split; [exact Hc|]. split; [|split].
+  - rewrite <- (elems_length _ Hw'), He, upd_length. apply elems_length. exact Hw.
+  - rewrite He. eapply map_fst_upd_value. exact Hp.
+  - intros j Hj. rewrite He. apply nth_error_upd_neq. auto.
+Qed.
+
+(* the slot the chain works on still holds the same key object *)
+Lemma am_frame_slot i (m m' : map) k0 v0 :
+  am_frame i m m' -> nth_error (elems m) i = Some (k0, v0) ->
+  exists v', nth_error (elems m') i = Some (k0, v').
+Proof.
+  intros (_ & _ & _ & Hm & _) Hp.
+  assert (H : nth_error (List.map fst (elems m')) i = Some k0).
+  { rewrite Hm, nth_error_map, Hp. reflexivity. }
+  rewrite nth_error_map in H. destruct (nth_error (elems m') i) as [[k1 v1]|]; [|discriminate].
+  cbn [option_map fst] in H. injection H as ->. eauto.
+Qed.
+
+Lemma am_frame_lookup i (m m' : map) k0 v0 c :
+  am_frame i m m' -> nth_error (elems m) i = Some (k0, v0) -> c <> ck k0 ->
+  lookup ck (elems m') c = lookup ck (elems m) c.
+Proof.
+  intros HF Hp Hc. destruct (am_frame_slot i m m' k0 v0 HF Hp) as [v' Hp'].
+  destruct HF as (_ & _ & _ & Hm & Hoth).
+  assert (Hfi : forall l l' : list kv, List.map fst l' = List.map fst l -> find_idx ck c l' = find_idx ck c l).
+  { induction l as [|p t IH]; intros [|p' t'] H; cbn [List.map] in H; try discriminate; [reflexivity|].
+    injection H as Hpp Ht. cbn [find_idx]. rewrite Hpp, (IH t' Ht). reflexivity. }
+  unfold lookup. rewrite (Hfi _ _ Hm).
+  destruct (find_idx ck c (elems m)) as [j|] eqn:Hj; [|reflexivity].
+  apply Hoth. intros ->. destruct (find_idx_inv ck _ _ _ Hj) as [[p [Hq Hcq]] _].
+  rewrite Hp in Hq. injection Hq as <-. cbn [fst] in Hcq. congruence.
+Qed.
+
+(* one and_modify on an occupied entry, ANY closure *)
+Lemma and_modify_occ_any (f : modf_t) i (w : world) :
+  WF (self w) -> i < len (self w) ->
+  wp (and_modify (Occupied i) f)
+     (fun e' w' => e' = Occupied i /\ am_frame i (self w) (self w') /\ logged w w' [EvCall 3])
+     (fun w' => am_frame i (self w) (self w') /\ logged w w' [EvCall 3]) w.
+Proof.
+  intros Hw Hi. destruct (iter_yield_is_elem i w Hw Hi) as [[k0 v0] [Hp _]].
+  cbn [and_modify]. apply wp_bind.
+  eapply wp_mono; [apply (occ_ref_lawful i w Hw Hi) | | intros ? []]; cbn beta.
+  intros j w1 [-> ->]. apply wp_bind.
+  eapply wp_mono; [apply (call_modf_stateful f i w Hw k0 v0 Hp) | |]; cbn beta; unfold modf_post.
+  - intros _ w2 (_ & Hw2 & Hc2 & He2 & Hl2 & _). apply wp_ret. split; [reflexivity|].
+    split; [eapply am_frame_upd; eassumption | exact Hl2].
+  - intros w2 (_ & Hw2 & Hc2 & He2 & Hl2 & _). split; [eapply am_frame_upd; eassumption | exact Hl2].
+Qed.
+
+(* the frame of a whole chain, ARBITRARY (stateful, panicking) modifiers.
+   The premise entry_ok: an Occupied entry designates a live slot (what entry(k)
+   returns); without it the unchecked accessors are undefined. *)
+Lemma and_modify_all_frame (fs : list modf_t) : forall (e : @entry K) (w : world),
+  WF (self w) -> entry_ok e (self w) ->
+  wp (and_modify_all e fs)
+     (fun e' w' => e' = e /\
+        match e with
+        | Vacant _ => w' = w
+        | Occupied i => am_frame i (self w) (self w') /\ logged w w' (repeat (EvCall 3) (length fs))
+        end)
+     (fun w' =>
+        match e with
+        | Vacant _ => False
+        | Occupied i => am_frame i (self w) (self w') /\
+                        exists n, 1 <= n <= length fs /\ logged w w' (repeat (EvCall 3) n)
+        end) w.
+Proof.
+  induction fs as [|f t IH]; intros e w Hw He; cbn [and_modify_all length repeat].
+  - apply wp_ret. split; [reflexivity|]. destruct e as [i|k]; [|reflexivity].
+    split; [apply am_frame_refl; exact Hw | apply logged_nil].
+  - destruct e as [i|k].
+    + cbn [entry_ok] in He. apply wp_bind.
+      eapply wp_mono; [apply (and_modify_occ_any f i w Hw He) | |]; cbn beta.
+      * intros e1 w1 (-> & HF1 & Hl1).
+        assert (Hw1 : WF (self w1)) by apply HF1.
+        assert (Hi1 : i < len (self w1)) by (destruct HF1 as (_ & _ & Hlen & _); rewrite Hlen; exact He).
+        eapply wp_mono; [apply (IH (Occupied i) w1 Hw1 Hi1) | |]; cbn beta.
+        -- intros e2 w2 (-> & HF2 & Hl2). split; [reflexivity|].
+           split; [eapply am_frame_trans; eassumption|].
+           change (EvCall 3 :: repeat (EvCall 3) (length t)) with ([EvCall 3] ++ repeat (EvCall 3) (length t)).
+           eapply logged_trans; eassumption.
+        -- intros w2 (HF2 & n & Hn & Hl2). split; [eapply am_frame_trans; eassumption|].
+           exists (S n). split; [lia|].
+           change (repeat (EvCall 3) (S n)) with ([EvCall 3] ++ repeat (EvCall 3) n).
+           eapply logged_trans; eassumption.
+      * intros w1 (HF1 & Hl1). split; [exact HF1|]. exists 1. split; [lia | exact Hl1].
+    + cbn [and_modify]. apply wp_bind. apply wp_ret.
+      eapply wp_mono; [apply (IH (Vacant k) w Hw I) | |]; cbn beta; auto.
+Qed.
+
+(* the weaker reading asked for by the audit: the entry is unchanged, the
+   container is well formed and holds the same key objects, on both exits *)
+Lemma and_modify_all_frame_keys (fs : list modf_t) (e : @entry K) (w : world) :
+  WF (self w) -> entry_ok e (self w) ->
+  wp (and_modify_all e fs)
+     (fun e' w' => e' = e /\ WF (self w') /\
+                   List.map fst (elems (self w')) = List.map fst (elems (self w)))
+     (fun w' => WF (self w') /\ List.map fst (elems (self w')) = List.map fst (elems (self w))) w.
+Proof.
+  intros Hw He.
+  eapply wp_mono; [apply (and_modify_all_frame fs e w Hw He) | |]; cbn beta.
+  - intros e' w' [-> H]. split; [reflexivity|]. destruct e as [i|k].
+    + destruct H as [(H1 & _ & _ & H2 & _) _]. auto.
+    + subst w'. auto.
+  - intros w' H. destruct e as [i|k]; [|destruct H]. destruct H as [(H1 & _ & _ & H2 & _) _]. auto.
+Qed.
+
+(* ---- composition ---- *)
+(* ABSENT key: the chain of and_modify disappears, for EVERY terminal T: the
+   program is literally entry(k) followed by T (so every theorem about
+   `e <- entry_of E k ;; T e` on an absent key applies) *)
+Theorem chain_vacant_skip {A} k (fs : list modf_t) (Tm : @entry K -> M A) (w : world) :
+  WF (self w) -> find_idx ck (ck k) (elems (self w)) = None ->
+  (e <- entry_of E k ;; e' <- and_modify_all e fs ;; Tm e') w = (e <- entry_of E k ;; Tm e) w.
+Proof.
+  intros Hw Hf. pose proof (entry_of_lawful E ck cq HL k w Hw) as H. unfold wp in H. unfold bind.
+  destruct (entry_of E k w) as [e w1|w1|]; [|reflexivity|reflexivity].
+  destruct H as [_ He]. rewrite Hf in He. destruct He as [-> _].
+  rewrite and_modify_all_vacant_run. reflexivity.
+Qed.
+
+(* PRESENT key: the terminal runs on Occupied j in a world that differs from
+   the start by the frame above; if a modifier panics the terminal does not run *)
+Theorem chain_occupied {A} k (fs : list modf_t) (Tm : @entry K -> M A) j
+        (Qn : A -> world -> Prop) (Qp : world -> Prop) (w : world) :
+  WF (self w) -> find_idx ck (ck k) (elems (self w)) = Some j ->
+  (forall w1, am_frame j (self w) (self w1) ->
+              logged w w1 (ev_drops (idK E k) ++ repeat (EvCall 3) (length fs)) ->
+              wp (Tm (Occupied j)) Qn Qp w1) ->
+  (forall w1 n, am_frame j (self w) (self w1) -> 1 <= n <= length fs ->
+                logged w w1 (ev_drops (idK E k) ++ repeat (EvCall 3) n) -> Qp w1) ->
+  wp (e <- entry_of E k ;; e' <- and_modify_all e fs ;; Tm e') Qn Qp w.
+Proof.
+  intros Hw Hf HT HP. apply wp_bind.
+  eapply wp_mono; [apply (entry_of_discards_key E ck cq HL k j w Hw Hf) | | intros ? []]; cbn beta.
+  intros e w1 (-> & Hs1 & Hl1).
+  destruct (find_idx_slot ck _ _ _ Hw Hf) as [Hj _]. apply wp_bind.
+  eapply wp_mono; [apply (and_modify_all_frame fs (Occupied j) w1); [rewrite Hs1; exact Hw | cbn [entry_ok]; rewrite Hs1; exact Hj] | |];
+    cbn beta; rewrite Hs1.
+  - intros e' w2 (-> & HF & Hl2). apply HT; [exact HF | eapply logged_trans; eassumption].
+  - intros w2 (HF & n & Hn & Hl2). apply (HP w2 n HF Hn). eapply logged_trans; eassumption.
+Qed.
+
+(* ---- the terminals, as functions of the entry ---- *)
+Definition t_insert (v : V) (e : @entry K) : M (option V) :=
+  match e with
+  | Occupied i => o <- occ_insert i v ;; ret (Some o)
+  | Vacant k' => _ <- vac_insert E debug k' v ;; ret None
+  end.
+Definition t_remove (e : @entry K) : M (option V) :=
+  match e with
+  | Occupied i => v <- occ_remove E debug i ;; ret (Some v)
+  | Vacant k' => drop_key E k' ;; ret None
+  end.
+Definition t_remove_entry (e : @entry K) : M (option kv) :=
+  match e with
+  | Occupied i => p <- occ_remove_entry debug i ;; ret (Some p)
+  | Vacant k' => drop_key E k' ;; ret None
+  end.
+Definition t_get (e : @entry K) : M (option nat) :=
+  match e with
+  | Occupied i => j <- occ_get i ;; ret (Some j)
+  | Vacant k' => drop_key E k' ;; ret None
+  end.
+
+(* the panic exit shared by all the corollaries: a modifier panicked *)
+Definition chain_panic (k : K) (fs : list (@modf_t V T)) (j : nat) (w w' : world) : Prop :=
+  am_frame j (self w) (self w') /\
+  exists n, 1 <= n <= length fs /\ logged w w' (ev_drops (idK E k) ++ repeat (EvCall 3) n).
+
+Lemma chain_panic_intro k fs j (w w1 : world) n :
+  am_frame j (self w) (self w1) -> 1 <= n <= length fs ->
+  logged w w1 (ev_drops (idK E k) ++ repeat (EvCall 3) n) -> chain_panic k fs j w w1.
+Proof. intros H1 H2 H3. split; [exact H1|]. exists n. auto. Qed.
+
+(* terminals that only re-borrow slot j: or_insert_with, or_insert_with_key
+   (ANY closure: it is not called — no EvCall 2 in the log), OccupiedEntry::get /
+   get_mut / into_mut / key *)
+Theorem chain_or_insert_with k (fs : list modf_t) (f : T -> option V * T) j (w : world) :
+  WF (self w) -> find_idx ck (ck k) (elems (self w)) = Some j ->
+  wp (e <- entry_of E k ;; e' <- and_modify_all e fs ;; or_insert_with E debug e' f)
+     (fun i w' => i = j /\ am_frame j (self w) (self w') /\
+                  logged w w' (ev_drops (idK E k) ++ repeat (EvCall 3) (length fs)))
+     (chain_panic k fs j w) w.
+Proof.
+  intros Hw Hf. apply (chain_occupied k fs (fun e' => or_insert_with E debug e' f) j); [exact Hw | exact Hf | |].
+  - intros w1 HF Hl. cbn [or_insert_with].
+    assert (Hj : j < len (self w1)).
+    { destruct HF as (_ & _ & Hlen & _). rewrite Hlen. apply (find_idx_slot ck _ _ _ Hw Hf). }
+    eapply wp_mono; [apply (occ_ref_lawful j w1); [apply HF | exact Hj] | | intros ? []]; cbn beta.
+    intros i w2 [-> ->]. auto.
+  - intros w1 n. apply chain_panic_intro.
+Qed.
+
+Theorem chain_or_insert_with_key k (fs : list modf_t) (f : K -> T -> option V * T) j (w : world) :
+  WF (self w) -> find_idx ck (ck k) (elems (self w)) = Some j ->
+  wp (e <- entry_of E k ;; e' <- and_modify_all e fs ;; or_insert_with_key E debug e' f)
+     (fun i w' => i = j /\ am_frame j (self w) (self w') /\
+                  logged w w' (ev_drops (idK E k) ++ repeat (EvCall 3) (length fs)))
+     (chain_panic k fs j w) w.
+Proof.
+  intros Hw Hf. apply (chain_occupied k fs (fun e' => or_insert_with_key E debug e' f) j); [exact Hw | exact Hf | |].
+  - intros w1 HF Hl. cbn [or_insert_with_key].
+    assert (Hj : j < len (self w1)).
+    { destruct HF as (_ & _ & Hlen & _). rewrite Hlen. apply (find_idx_slot ck _ _ _ Hw Hf). }
+    eapply wp_mono; [apply (occ_ref_lawful j w1); [apply HF | exact Hj] | | intros ? []]; cbn beta.
+    intros i w2 [-> ->]. auto.
+  - intros w1 n. apply chain_panic_intro.
+Qed.
+
+Theorem chain_key k (fs : list modf_t) j (w : world) :
+  WF (self w) -> find_idx ck (ck k) (elems (self w)) = Some j ->
+  wp (e <- entry_of E k ;; e' <- and_modify_all e fs ;; entry_key e')
+     (fun r w' => r = inl j /\ am_frame j (self w) (self w') /\
+                  logged w w' (ev_drops (idK E k) ++ repeat (EvCall 3) (length fs)))
+     (chain_panic k fs j w) w.
+Proof.
+  intros Hw Hf. apply (chain_occupied k fs (fun e' => entry_key e') j); [exact Hw | exact Hf | |].
+  - intros w1 HF Hl. cbn [entry_key].
+    assert (Hj : j < len (self w1)).
+    { destruct HF as (_ & _ & Hlen & _). rewrite Hlen. apply (find_idx_slot ck _ _ _ Hw Hf). }
+    apply wp_bind.
+    eapply wp_mono; [apply (occ_ref_lawful j w1); [apply HF | exact Hj] | | intros ? []]; cbn beta.
+    intros i w2 [-> ->]. apply wp_ret. auto.
+  - intros w1 n. apply chain_panic_intro.
+Qed.
+
+Theorem chain_get k (fs : list modf_t) j (w : world) :
+  WF (self w) -> find_idx ck (ck k) (elems (self w)) = Some j ->
+  wp (e <- entry_of E k ;; e' <- and_modify_all e fs ;; t_get e')
+     (fun r w' => r = Some j /\ am_frame j (self w) (self w') /\
+                  logged w w' (ev_drops (idK E k) ++ repeat (EvCall 3) (length fs)))
+     (chain_panic k fs j w) w.
+Proof.
+  intros Hw Hf. apply (chain_occupied k fs t_get j); [exact Hw | exact Hf | |].
+  - intros w1 HF Hl. cbn [t_get].
+    assert (Hj : j < len (self w1)).
+    { destruct HF as (_ & _ & Hlen & _). rewrite Hlen. apply (find_idx_slot ck _ _ _ Hw Hf). }
+    apply wp_bind.
+    eapply wp_mono; [apply (occ_ref_lawful j w1); [apply HF | exact Hj] | | intros ? []]; cbn beta.
+    intros i w2 [-> ->]. apply wp_ret. auto.
+  - intros w1 n. apply chain_panic_intro.
+Qed.
+
+(* or_insert after any modifiers: the unused default is destroyed *)
+Theorem chain_or_insert k (fs : list modf_t) v j (w : world) :
+  WF (self w) -> find_idx ck (ck k) (elems (self w)) = Some j ->
+  wp (e <- entry_of E k ;; e' <- and_modify_all e fs ;; or_insert E debug e' v)
+     (fun i w' => i = j /\ am_frame j (self w) (self w') /\
+                  logged w w' (ev_drops (idK E k) ++ repeat (EvCall 3) (length fs) ++ ev_drops (idV E v)))
+     (chain_panic k fs j w) w.
+Proof.
+  intros Hw Hf. apply (chain_occupied k fs (fun e' => or_insert E debug e' v) j); [exact Hw | exact Hf | |].
+  - intros w1 HF Hl. cbn [or_insert].
+    assert (Hj : j < len (self w1)).
+    { destruct HF as (_ & _ & Hlen & _). rewrite Hlen. apply (find_idx_slot ck _ _ _ Hw Hf). }
+    apply wp_bind.
+    eapply wp_mono; [apply (occ_ref_lawful j w1); [apply HF | exact Hj] | | intros ? []]; cbn beta.
+    intros i w2 [-> ->]. apply wp_bind.
+    eapply wp_mono; [apply (drop_val_lawful E ck cq HL) | | intros ? []]; cbn beta.
+    intros _ w3 [Hs3 Hl3]. apply wp_ret. rewrite Hs3. split; [reflexivity|]. split; [exact HF|].
+    pose proof (logged_trans _ _ _ _ _ Hl Hl3) as H. rewrite <- app_assoc in H. exact H.
+  - intros w1 n. apply chain_panic_intro.
+Qed.
+
+(* OccupiedEntry::insert after any modifiers: returns the value the modifiers
+   left, stores v under the SAME key object k0 *)
+Theorem chain_insert k (fs : list modf_t) v j k0 v0 (w : world) :
+  WF (self w) -> find_idx ck (ck k) (elems (self w)) = Some j ->
+  nth_error (elems (self w)) j = Some (k0, v0) ->
+  wp (e <- entry_of E k ;; e' <- and_modify_all e fs ;; t_insert v e')
+     (fun r w' => (exists v', r = Some v') /\ am_frame j (self w) (self w') /\
+                  nth_error (elems (self w')) j = Some (k0, v) /\
+                  logged w w' (ev_drops (idK E k) ++ repeat (EvCall 3) (length fs)))
+     (chain_panic k fs j w) w.
+Proof.
+  intros Hw Hf Hp. apply (chain_occupied k fs (t_insert v) j); [exact Hw | exact Hf | |].
+  - intros w1 HF Hl. cbn [t_insert]. destruct (am_frame_slot j _ _ k0 v0 HF Hp) as [v' Hp1].
+    assert (Hw1 : WF (self w1)) by apply HF. apply wp_bind.
+    eapply wp_mono; [apply (occ_insert_lawful j v w1 Hw1 k0 v' Hp1) | | intros ? []]; cbn beta.
+    intros o w2 (Hw2 & Hc2 & Hl2 & -> & He2). apply wp_ret.
+    split; [eauto|]. split; [|split].
+    + eapply am_frame_trans; [exact HF|]. eapply am_frame_upd; eassumption.
+    + rewrite He2. apply nth_error_upd_eq. apply nth_error_Some. rewrite Hp1. discriminate.
+    + eapply logged_same; eassumption.
+  - intros w1 n. apply chain_panic_intro.
+Qed.
+
+(* remove_entry / remove after any modifiers: the pair handed out carries the
+   STORED key object k0 and the value the modifiers left; the rest is a
+   swap_remove of a content l1 that differs from the original in slot j's value only *)
+Theorem chain_remove_entry k (fs : list modf_t) j k0 v0 (w : world) :
+  WF (self w) -> find_idx ck (ck k) (elems (self w)) = Some j ->
+  nth_error (elems (self w)) j = Some (k0, v0) ->
+  wp (e <- entry_of E k ;; e' <- and_modify_all e fs ;; t_remove_entry e')
+     (fun r w' => exists v' l1,
+        r = Some (k0, v') /\ WF (self w') /\ cap (self w') = cap (self w) /\
+        l1 = upd (elems (self w)) j (k0, v') /\
+        elems (self w') = swap_remove l1 j /\
+        logged w w' (ev_drops (idK E k) ++ repeat (EvCall 3) (length fs)))
+     (chain_panic k fs j w) w.
+Proof.
+  intros Hw Hf Hp. apply (chain_occupied k fs t_remove_entry j); [exact Hw | exact Hf | |].
+  - intros w1 HF Hl. cbn [t_remove_entry]. destruct (am_frame_slot j _ _ k0 v0 HF Hp) as [v' Hp1].
+    assert (Hw1 : WF (self w1)) by apply HF.
+    assert (Hj : j < len (self w1)) by (apply (elems_nth_slot _ _ _ Hw1 Hp1)).
+    assert (He1 : elems (self w1) = upd (elems (self w)) j (k0, v')).
+    { destruct HF as (_ & _ & Hlen & _ & Hoth). apply nth_error_ext_upd; [|exact Hp1|exact Hoth].
+      rewrite (elems_length _ Hw1), (elems_length _ Hw). exact Hlen. }
+    apply wp_bind.
+    eapply wp_mono; [apply (occ_remove_entry_lawful debug j w1 Hw1 Hj) | | intros ? []]; cbn beta.
+    intros p w2 (Hw2 & Hc2 & Hl2 & Hp2 & He2). apply wp_ret. rewrite Hp1 in Hp2. injection Hp2 as <-.
+    exists v', (upd (elems (self w)) j (k0, v')). split; [reflexivity|]. split; [exact Hw2|].
+    split; [destruct HF as (_ & Hc & _); congruence|]. split; [reflexivity|].
+    split; [rewrite He2, He1; reflexivity | eapply logged_same; eassumption].
+  - intros w1 n. apply chain_panic_intro.
+Qed.
+
+Theorem chain_remove k (fs : list modf_t) j k0 v0 (w : world) :
+  WF (self w) -> find_idx ck (ck k) (elems (self w)) = Some j ->
+  nth_error (elems (self w)) j = Some (k0, v0) ->
+  wp (e <- entry_of E k ;; e' <- and_modify_all e fs ;; t_remove e')
+     (fun r w' => exists v' l1,
+        r = Some v' /\ WF (self w') /\ cap (self w') = cap (self w) /\
+        l1 = upd (elems (self w)) j (k0, v') /\
+        elems (self w') = swap_remove l1 j /\
+        logged w w' (ev_drops (idK E k) ++ repeat (EvCall 3) (length fs) ++ ev_drops (idK E k0)))
+     (chain_panic k fs j w) w.
+Proof.
+  intros Hw Hf Hp. apply (chain_occupied k fs t_remove j); [exact Hw | exact Hf | |].
+  - intros w1 HF Hl. cbn [t_remove]. destruct (am_frame_slot j _ _ k0 v0 HF Hp) as [v' Hp1].
+    assert (Hw1 : WF (self w1)) by apply HF.
+    assert (Hj : j < len (self w1)) by (apply (elems_nth_slot _ _ _ Hw1 Hp1)).
+    assert (He1 : elems (self w1) = upd (elems (self w)) j (k0, v')).
+    { destruct HF as (_ & _ & Hlen & _ & Hoth). apply nth_error_ext_upd; [|exact Hp1|exact Hoth].
+      rewrite (elems_length _ Hw1), (elems_length _ Hw). exact Hlen. }
+    apply wp_bind.
+    eapply wp_mono; [apply (occ_remove_lawful E debug ck cq HL j w1 Hw1 Hj) | | intros ? []]; cbn beta.
+    intros r w2 (Hw2 & Hc2 & k1 & Hp2 & He2 & Hl2). apply wp_ret. rewrite Hp1 in Hp2. injection Hp2 as <- <-.
+    exists v', (upd (elems (self w)) j (k0, v')). split; [reflexivity|]. split; [exact Hw2|].
+    split; [destruct HF as (_ & Hc & _); congruence|]. split; [reflexivity|].
+    split; [rewrite He2, He1; reflexivity|].
+    pose proof (logged_trans _ _ _ _ _ Hl Hl2) as H. rewrite <- app_assoc in H. exact H.
+  - intros w1 n. apply chain_panic_intro.
+Qed.
+
+End Chains2.
+
+(* ======================================================================== *)
+(* 9. "every reachable map state": WF and Uniq discharged from reachability  *)
+(* ======================================================================== *)
+Section Reachable.
+Context {K V Q T : Type} (E : env K V Q T) (debug : bool).
+Context (ck : K -> N) (cq : Q -> N) (HL : Lawful E ck cq).
+Notation world := (world K V T).
+
+(* the state after ANY history (Dict2: the 13 map operations, drain, iteration,
+   entry(k).or_insert(v), extend — container-raised panics included) from
+   Map::new() of ANY capacity is well formed with pairwise different keys *)
+Theorem reachable2_inv n (ops : list (@dop2 K V Q)) s lg :
+  exists wf, mfinal2 E debug ops {| cb := s; log := lg; self := new_map n |} = Some wf /\
+             WF (self wf) /\ Uniq ck (elems (self wf)) /\ cap (self wf) = n.
+Proof.
+  destruct (run2_refines_new E debug ck cq HL n ops s lg) as (wf & df & Hm & _ & (Hw & Hu & _) & Hc).
+  exists wf. auto.
+Qed.
+
+(* transfer principle: whatever holds of every well-formed, unique-keyed state
+   holds of every reachable state *)
+Theorem reachable2_elim (P : world -> Prop) :
+  (forall w, WF (self w) -> Uniq ck (elems (self w)) -> P w) ->
+  forall n (ops : list (@dop2 K V Q)) s lg,
+    exists wf, mfinal2 E debug ops {| cb := s; log := lg; self := new_map n |} = Some wf /\ P wf.
+Proof.
+  intros HP n ops s lg. destruct (reachable2_inv n ops s lg) as (wf & Hm & Hw & Hu & _).
+  exists wf. split; [exact Hm | apply HP; assumption].
+Qed.
+
+Theorem entry_of_reachable n (ops : list (@dop2 K V Q)) s lg :
+  exists wf, mfinal2 E debug ops {| cb := s; log := lg; self := new_map n |} = Some wf /\
+    forall k,
+    wp (entry_of E k)
+       (fun e w' => self w' = self wf /\ cb w' = entry_cb E ck k (elems (self wf)) (cb wf) /\
+                    match find_idx ck (ck k) (elems (self wf)) with
+                    | Some i => e = Occupied i /\ logged wf w' (ev_drops (idK E k))
+                    | None => e = Vacant k /\ log w' = log wf
+                    end)
+       (fun _ => False) wf.
+Proof.
+  destruct (reachable2_inv n ops s lg) as (w & Hm & Hw & Hu & _). exists w. split; [exact Hm|].
+  intros k. exact (entry_of_cb E ck cq HL k w Hw).
+Qed.
+
+Theorem or_insert_reachable n (ops : list (@dop2 K V Q)) s lg :
+  exists wf, mfinal2 E debug ops {| cb := s; log := lg; self := new_map n |} = Some wf /\
+    forall k v,
+    wp (e <- entry_of E k ;; or_insert E debug e v)
+       (fun i w' => WF (self w') /\ cap (self w') = cap (self wf) /\
+                    match find_idx ck (ck k) (elems (self wf)) with
+                    | Some j => i = j /\ self w' = self wf /\
+                                logged wf w' (ev_drops (idK E k) ++ ev_drops (idV E v))
+                    | None => i = length (elems (self wf)) /\
+                              elems (self w') = elems (self wf) ++ [(k, v)] /\ log w' = log wf
+                    end)
+       (fun w' => self w' = self wf /\ logged wf w' (ev_drops (idV E v ++ idK E k)) /\
+                  find_idx ck (ck k) (elems (self wf)) = None /\
+                  len (self wf) = cap (self wf)) wf.
+Proof.
+  destruct (reachable2_inv n ops s lg) as (w & Hm & Hw & Hu & _). exists w. split; [exact Hm|].
+  intros k v. exact (or_insert_lawful E debug ck cq HL k v w Hw).
+Qed.
+
+(* or_insert_with: present -> not called; absent -> the stored value is the
+   closure's result in the state at the call *)
+Theorem or_insert_with_reachable n (ops : list (@dop2 K V Q)) s lg :
+  exists wf, mfinal2 E debug ops {| cb := s; log := lg; self := new_map n |} = Some wf /\
+    forall k (f : T -> option V * T),
+    match find_idx ck (ck k) (elems (self wf)) with
+    | Some j =>
+        wp (e <- entry_of E k ;; or_insert_with E debug e f)
+           (fun i w' => i = j /\ self w' = self wf /\ logged wf w' (ev_drops (idK E k)) /\
+                        exists k0 v0, nth_error (elems (self w')) j = Some (k0, v0) /\ ck k0 = ck k)
+           (fun _ => False) wf
+    | None =>
+        forall v s', f (scan_cb E k (elems (self wf)) (cb wf)) = (Some v, s') ->
+        wp (e <- entry_of E k ;; or_insert_with E debug e f)
+           (fun i w' => WF (self w') /\ cap (self w') = cap (self wf) /\
+                        elems (self w') = elems (self wf) ++ [(k, v)] /\ i = length (elems (self wf)) /\
+                        logged wf w' [EvCall 2] /\ len (self wf) < cap (self wf))
+           (fun w' => self w' = self wf /\ logged wf w' ([EvCall 2] ++ ev_drops (idV E v ++ idK E k)) /\
+                      len (self wf) = cap (self wf)) wf
+    end.
+Proof.
+  destruct (reachable2_inv n ops s lg) as (w & Hm & Hw & Hu & _). exists w. split; [exact Hm|].
+  intros k f. destruct (find_idx ck (ck k) (elems (self w))) as [j|] eqn:Hf.
+  - exact (or_insert_with_occupied E debug ck cq HL k f j w Hw Hf).
+  - intros v s' Hfv. exact (or_insert_with_vacant_exact E debug ck cq HL k f v s' w Hw Hf Hfv).
+Qed.
+
+(* and_modify, any closure, and "touch no other entry" *)
+Theorem and_modify_others_reachable n (ops : list (@dop2 K V Q)) s lg :
+  exists wf, mfinal2 E debug ops {| cb := s; log := lg; self := new_map n |} = Some wf /\
+    forall k (f : @modf_t V T),
+    wp (e <- entry_of E k ;; and_modify e f)
+       (fun _ w' => List.map fst (elems (self w')) = List.map fst (elems (self wf)) /\
+                    forall c, c <> ck k -> lookup ck (elems (self w')) c = lookup ck (elems (self wf)) c)
+       (fun w' => List.map fst (elems (self w')) = List.map fst (elems (self wf)) /\
+                  forall c, c <> ck k -> lookup ck (elems (self w')) c = lookup ck (elems (self wf)) c) wf.
+Proof.
+  destruct (reachable2_inv n ops s lg) as (w & Hm & Hw & Hu & _). exists w. split; [exact Hm|].
+  intros k f. exact (and_modify_others E ck cq HL k f w Hw).
+Qed.
+
+(* remove through the entry: here Uniq is needed, and reachability provides it *)
+Theorem entry_remove_others_reachable n (ops : list (@dop2 K V Q)) s lg :
+  exists wf, mfinal2 E debug ops {| cb := s; log := lg; self := new_map n |} = Some wf /\
+    forall k j, find_idx ck (ck k) (elems (self wf)) = Some j ->
+    wp (e <- entry_of E k ;; match e with Occupied i => occ_remove E debug i | Vacant _ => panic end)
+       (fun v w' => exists k0, nth_error (elems (self wf)) j = Some (k0, v) /\ ck k0 = ck k /\
+                    logged wf w' (ev_drops (idK E k) ++ ev_drops (idK E k0)) /\
+                    lookup ck (elems (self w')) (ck k) = None /\
+                    forall c, c <> ck k -> lookup ck (elems (self w')) c = lookup ck (elems (self wf)) c)
+       (fun _ => False) wf.
+Proof.
+  destruct (reachable2_inv n ops s lg) as (w & Hm & Hw & Hu & _). exists w. split; [exact Hm|].
+  intros k j Hf. exact (entry_remove_others E debug ck cq HL k j w Hw Hu Hf).
+Qed.
+
+(* the equations with the direct operations, on every reachable state *)
+Theorem entry_vs_direct_reachable n (ops : list (@dop2 K V Q)) s lg :
+  exists wf, mfinal2 E debug ops {| cb := s; log := lg; self := new_map n |} = Some wf /\
+    (forall k v, obs (entry_insert E debug k v wf) = obs (insert E debug k v wf)) /\
+    (forall k q v, cq q = ck k ->
+       obs ((e <- entry_of E k ;; or_insert E debug e v) wf) = obs (direct_or_insert E debug q k v wf)).
+Proof.
+  destruct (reachable2_inv n ops s lg) as (w & Hm & Hw & Hu & _). exists w. split; [exact Hm|].
+  split.
+  - intros k v. exact (entry_insert_is_insert E debug ck cq HL k v w Hw).
+  - intros k q v Hq. exact (or_insert_is_direct E debug ck cq HL k q v w Hw Hq).
+Qed.
+
+End Reachable.
+
+(* ======================================================================== *)
+(* 10. chain-level panic exits: a closure of the chain panics                 *)
+(* ======================================================================== *)
+Section ChainPanics.
+Context (debug : bool) (sc : script).
+(* the script makes every == truthful and no Drop / Clone panic, and makes the
+   closure call number sc_fa panic *)
+Definition closure_fault : Prop := sc_adv sc = false /\ sc_fk sc = 4%N.
+Context (Hcf : closure_fault).
+Notation Em := (env_map sc).
+Notation mworld := (world key vobj cstate).
+
+Lemma env_map_lawful_cf : Lawful Em kcls qcls.
+Proof.
+  pose proof Hcf as [Ha Hf].
+  assert (Heq : forall s t, fst (eq_answer sc s t) = if t then Yes else No).
+  { intros s t. unfold eq_answer. rewrite Ha, Hf. cbn [N.eqb Pos.eqb andb fst]. reflexivity. }
+  assert (Hdb : forall id, drop_boom sc id = false).
+  { intros id. unfold drop_boom. rewrite Hf. reflexivity. }
+  constructor; intros; cbn [env_map eqK eqKQ eqQQ eqQK dropK dropV fst]; first [apply Heq | apply Hdb].
+Qed.
+Let HLc := env_map_lawful_cf.
+
+Lemma eq_answer_n_call s t : n_call (snd (eq_answer sc s t)) = n_call s.
+Proof. unfold eq_answer. destruct (_ && _); reflexivity. Qed.
+
+Lemma scan_cb_n_call k l s : n_call (scan_cb Em k l s) = n_call s.
+Proof.
+  unfold scan_cb. revert s. induction l as [|p t IH]; intros s; cbn [fold_left]; [reflexivity|].
+  rewrite IH. cbn [env_map eqK]. apply eq_answer_n_call.
+Qed.
+
+Lemma entry_cb_n_call k l s : n_call (entry_cb Em kcls k l s) = n_call s.
+Proof.
+  unfold entry_cb. destruct (find_idx kcls (kcls k) l); [|apply scan_cb_n_call].
+  cbn [env_map dropK snd]. apply scan_cb_n_call.
+Qed.
+
+Lemma call_tick_boom s : n_call s = sc_fa sc -> fst (call_tick sc s) = true.
+Proof.
+  intros Hn. pose proof Hcf as [_ Hf]. unfold call_tick. cbn [fst]. rewrite Hf, Hn, !N.eqb_refl. reflexivity.
+Qed.
+
+Lemma mk_val_boom v s : n_call s = sc_fa sc -> mk_val sc v s = (None, snd (call_tick sc s)).
+Proof.
+  intros Hn. unfold mk_val. pose proof (call_tick_boom s Hn) as Hb.
+  destruct (call_tick sc s) as [boom s']. cbn [fst snd] in *. subst boom. reflexivity.
+Qed.
+Lemma mk_default_boom s : n_call s = sc_fa sc -> mk_default sc s = (None, snd (call_tick sc s)).
+Proof.
+  intros Hn. unfold mk_default. pose proof (call_tick_boom s Hn) as Hb.
+  destruct (call_tick sc s) as [boom s']. cbn [fst snd] in *. subst boom. reflexivity.
+Qed.
+Lemma modf_add_boom v s : n_call s = sc_fa sc -> modf_add sc s v = ((true, v), snd (call_tick sc s)).
+Proof.
+  intros Hn. unfold modf_add. pose proof (call_tick_boom s Hn) as Hb.
+  destruct (call_tick sc s) as [boom s']. cbn [fst snd] in *. subst boom. reflexivity.
+Qed.
+
+(* chains 1, 2, 3 on an ABSENT key when the closure panics: it was called once
+   (one EvCall 2), nothing is inserted — the container is untouched — and the
+   supplied key object, owned by the VacantEntry, is destroyed exactly once *)
+Lemma chain1_closure_panics k v (w : mworld) :
+  WF (self w) -> find_idx kcls (kcls k) (Spec.elems (self w)) = None -> n_call (cb w) = sc_fa sc ->
+  wp (entry_chain debug sc k 1 v) (fun _ _ => False)
+     (fun w' => self w' = self w /\ logged w w' [EvCall 2; EvDrop (kid k)]) w.
+Proof.
+  intros Hw Hf Hn.
+  change (entry_chain debug sc k 1 v)
+    with (e <- entry_of Em k ;; i <- or_insert_with Em debug e (mk_val sc v) ;; r_slotval 0 i).
+  apply (wp_bind_assoc (entry_of Em k) (fun e => or_insert_with Em debug e (mk_val sc v)) (fun i => r_slotval 0 i)).
+  apply wp_bind.
+  eapply wp_mono;
+    [eapply (or_insert_with_vacant_closure_panics Em debug kcls qcls HLc k (mk_val sc v) _ w Hw Hf);
+     apply mk_val_boom; rewrite scan_cb_n_call; exact Hn | intros ? ? [] |]; cbn beta.
+  intros w' (Hs & Hl & _). auto.
+Qed.
+
+Lemma chain2_closure_panics k v (w : mworld) :
+  WF (self w) -> find_idx kcls (kcls k) (Spec.elems (self w)) = None -> n_call (cb w) = sc_fa sc ->
+  wp (entry_chain debug sc k 2 v) (fun _ _ => False)
+     (fun w' => self w' = self w /\ logged w w' [EvCall 2; EvDrop (kid k)]) w.
+Proof.
+  intros Hw Hf Hn.
+  change (entry_chain debug sc k 2 v)
+    with (e <- entry_of Em k ;; i <- or_insert_with_key Em debug e (fun _ => mk_val sc v) ;; r_slotval 0 i).
+  apply (wp_bind_assoc (entry_of Em k) (fun e => or_insert_with_key Em debug e (fun _ => mk_val sc v))
+           (fun i => r_slotval 0 i)).
+  apply wp_bind.
+  eapply wp_mono;
+    [eapply (or_insert_with_key_vacant_closure_panics Em debug kcls qcls HLc k (fun _ => mk_val sc v) _ w Hw Hf);
+     apply mk_val_boom; rewrite scan_cb_n_call; exact Hn | intros ? ? [] |]; cbn beta.
+  intros w' (Hs & Hl & _). auto.
+Qed.
+
+Lemma chain3_closure_panics k v (w : mworld) :
+  WF (self w) -> find_idx kcls (kcls k) (Spec.elems (self w)) = None -> n_call (cb w) = sc_fa sc ->
+  wp (entry_chain debug sc k 3 v) (fun _ _ => False)
+     (fun w' => self w' = self w /\ logged w w' [EvCall 2; EvDrop (kid k)]) w.
+Proof.
+  intros Hw Hf Hn.
+  change (entry_chain debug sc k 3 v)
+    with (e <- entry_of Em k ;; i <- or_insert_with Em debug e (mk_default sc) ;; r_slotval 0 i).
+  apply (wp_bind_assoc (entry_of Em k) (fun e => or_insert_with Em debug e (mk_default sc)) (fun i => r_slotval 0 i)).
+  apply wp_bind.
+  eapply wp_mono;
+    [eapply (or_insert_with_vacant_closure_panics Em debug kcls qcls HLc k (mk_default sc) _ w Hw Hf);
+     apply mk_default_boom; rewrite scan_cb_n_call; exact Hn | intros ? ? [] |]; cbn beta.
+  intros w' (Hs & Hl & _). auto.
+Qed.
+
+(* chain 4 on a PRESENT key when the and_modify closure panics: it ran once (one
+   EvCall 3) on the stored value; what it left in the slot stays (the scripted
+   closure panics before writing: the content is what it was); the supplied
+   key was destroyed by entry(k); or_insert does not run (v is not destroyed) *)
+Lemma chain4_closure_panics k v j (w : mworld) :
+  WF (self w) -> find_idx kcls (kcls k) (Spec.elems (self w)) = Some j -> n_call (cb w) = sc_fa sc ->
+  wp (entry_chain debug sc k 4 v) (fun _ _ => False)
+     (fun w' => WF (self w') /\ cap (self w') = cap (self w) /\
+                Spec.elems (self w') = Spec.elems (self w) /\
+                logged w w' [EvDrop (kid k); EvCall 3]) w.
+Proof.
+  intros Hw Hf Hn.
+  change (entry_chain debug sc k 4 v)
+    with (e <- entry_of Em k ;; e' <- and_modify e (modf_add sc) ;; i <- or_insert Em debug e' v ;; r_slotval 0 i).
+  apply (wp_bind_assoc (entry_of Em k) (fun e => and_modify e (modf_add sc))
+           (fun e' => i <- or_insert Em debug e' v ;; r_slotval 0 i)).
+  apply wp_bind.
+  eapply wp_mono; [apply (and_modify_stateful Em kcls qcls HLc k (modf_add sc) w Hw) | |]; cbn beta; rewrite ?Hf.
+  - intros e' w' (_ & k0 & v0 & _ & Hb & _). exfalso. cbv zeta in Hb.
+    rewrite modf_add_boom in Hb by (rewrite entry_cb_n_call; exact Hn). discriminate.
+  - intros w' (j' & k0 & v0 & Hj & Hp & _ & Hw' & Hc' & He' & _ & Hl'). cbv zeta in He'.
+    rewrite modf_add_boom in He' by (rewrite entry_cb_n_call; exact Hn). cbn [fst snd] in He'.
+    injection Hj as <-.
+    split; [exact Hw'|]. split; [exact Hc'|]. split; [rewrite He'; apply d_upd_same; exact Hp | exact Hl'].
+Qed.
+
+End ChainPanics.
+
+(* ======================================================================== *)
+(* 11. Extend with its overflow exit; the serde visitor as a whole            *)
+(* ======================================================================== *)
+Require Import Proofs.MoreBulk.
+
+Section BulkKeys2.
+Context {K V Q T : Type} (E : env K V Q T) (debug : bool).
+Context (ck : K -> N) (cq : Q -> N) (HL : Lawful E ck cq).
+Notation world := (world K V T). Notation kv := (K * V)%type.
+
+(* which key objects a container built by bulk insertion holds *)
+Definition bulk_keys (l l' : list kv) (items : list kv) : Prop :=
+  (forall c, lookup ck l' c = bulk_view ck c (lookup ck l c) items) /\
+  (forall c k0 v0, lookup ck l c = Some (k0, v0) -> exists v', lookup ck l' c = Some (k0, v')) /\
+  (forall c k1, lookup ck l c = None -> first_key ck c items = Some k1 ->
+                exists v', lookup ck l' c = Some (k1, v')).
+
+Lemma bulk_keys_of_extend N0 (l l' items : list kv) :
+  l_extend ck N0 l items = Some l' -> bulk_keys l l' items.
+Proof.
+  intros Hx.
+  assert (Hv : forall c, lookup ck l' c = bulk_view ck c (lookup ck l c) items)
+    by (intros c; apply (bulk_lookup_gen ck _ _ _ _ c Hx)).
+  split; [exact Hv|]. split.
+  - intros c k0 v0 Hl. rewrite Hv, Hl. apply bulk_view_stored.
+  - intros c k1 Hl Hfk. rewrite Hv, Hl. apply bulk_view_first. exact Hfk.
+Qed.
+
+(* Extend, BOTH exits.  Normal return: as extend_keeps_first_key.  Overflow
+   panic: items = pre ++ x :: post, x is of a new class and the container is
+   full; the container holds exactly what inserting `pre` built — so every
+   class stored before still has its key object, every new class the first
+   supplied key object of `pre` *)
+Lemma extend_keeps_first_key_both nx items (w : world) :
+  (forall s, fst (nx s) <> Boom) -> WF (self w) ->
+  wp (extend_loop E debug nx items)
+     (fun _ w' => WF (self w') /\ cap (self w') = cap (self w) /\
+                  bulk_keys (elems (self w)) (elems (self w')) items)
+     (fun w' => WF (self w') /\ cap (self w') = cap (self w) /\
+                exists pre x post,
+                  items = pre ++ x :: post /\
+                  bulk_keys (elems (self w)) (elems (self w')) pre /\
+                  find_idx ck (ck (fst x)) (elems (self w')) = None /\
+                  length (elems (self w')) = cap (self w)) w.
+Proof.
+  intros Hnx Hw.
+  eapply wp_mono; [apply (extend_loop_overflow E debug ck cq HL nx items Hnx w Hw) | |]; cbn beta.
+  - intros _ w' (H1 & H2 & H3 & _). split; [exact H1|]. split; [exact H2|].
+    eapply bulk_keys_of_extend; exact H3.
+  - intros w' (H1 & H2 & _ & pre & x & post & Hit & Hpre & Hfx & Hfull & _).
+    split; [exact H1|]. split; [exact H2|]. exists pre, x, post. split; [exact Hit|].
+    split; [eapply bulk_keys_of_extend; exact Hpre | auto].
+Qed.
+
+Lemma drop_val_cb v (w : world) :
+  wp (drop_val E v)
+     (fun _ w' => self w' = self w /\ logged w w' (ev_drops (idV E v)) /\ cb w' = snd (dropV E (cb w) v))
+     (fun _ => False) w.
+Proof.
+  unfold drop_val. apply wp_bind. apply wp_emit. apply wp_bind. apply wp_cbd_eq.
+  rewrite (law_dropV E ck cq HL). apply wp_ret. simp_w. split; [reflexivity|]. split; reflexivity.
+Qed.
+
+End BulkKeys2.
+
+(* the entries the deserializer decodes: fresh objects, identities id, id+1, ... *)
+Fixpoint decode (id : N) (items : list (key * vobj)) : list (key * vobj) :=
+  match items with
+  | [] => []
+  | (k, v) :: rest =>
+      ({| kid := id; kcls := kcls k |}, {| vid := id + 1; vdat := vdat v |}) :: decode (id + 2) rest
+  end.
+
+Lemma entry_cb_next_id sc k l s : next_id (entry_cb (env_map sc) kcls k l s) = next_id s.
+Proof.
+  unfold entry_cb. destruct (find_idx kcls (kcls k) l); [|apply scan_cb_next_id].
+  cbn [env_map dropK snd]. apply scan_cb_next_id.
+Qed.
+
+(* the WHOLE visitor, any item list (repeated classes, classes already stored):
+   it is the item-by-item insertion (l_extend) of the decoded entries; it panics
+   exactly when that overflows *)
+Lemma visit_map_is_extend debug sc items : honest sc -> forall w : world key vobj cstate,
+  WF (self w) ->
+  wp (visit_map debug sc items)
+     (fun _ w' => WF (self w') /\ cap (self w') = cap (self w) /\
+                  l_extend kcls (cap (self w)) (Spec.elems (self w)) (decode (next_id (cb w)) items)
+                    = Some (Spec.elems (self w')) /\
+                  next_id (cb w') = (next_id (cb w) + 2 * N.of_nat (length items))%N)
+     (fun _ => l_extend kcls (cap (self w)) (Spec.elems (self w)) (decode (next_id (cb w)) items) = None) w.
+Proof.
+  intros Hh. pose proof (env_map_lawful sc Hh) as HL.
+  induction items as [|[k v] rest IH]; intros w Hw.
+  - cbn [visit_map decode l_extend length]. apply wp_ret.
+    split; [exact Hw|]. split; [reflexivity|]. split; [reflexivity|]. cbn. lia.
+  - rewrite visit_map_cons. apply wp_bind. apply wp_get_next_id. apply wp_bind. apply wp_bump_id.
+    set (id := next_id (cb w)). set (w1 := with_cb w _).
+    set (k' := {| kid := id; kcls := kcls k |}). set (v' := {| vid := id + 1; vdat := vdat v |}).
+    assert (Hs1 : self w1 = self w) by reflexivity.
+    assert (Hn1 : next_id (cb w1) = (id + 2)%N) by reflexivity.
+    cbn [decode]. fold id k' v'.
+    assert (Hcont : forall w2 w3 : world key vobj cstate,
+      WF (self w2) -> cap (self w2) = cap (self w) ->
+      Spec.elems (self w2) = fst (fst (l_insert kcls (Spec.elems (self w)) k' v' false)) ->
+      self w3 = self w2 -> next_id (cb w3) = (id + 2)%N ->
+      wp (visit_map debug sc rest)
+         (fun _ w' => WF (self w') /\ cap (self w') = cap (self w) /\
+                      l_extend kcls (cap (self w)) (Spec.elems (self w)) ((k', v') :: decode (id + 2) rest)
+                        = Some (Spec.elems (self w')) /\
+                      next_id (cb w') = (id + 2 * N.of_nat (length ((k, v) :: rest)))%N)
+         (fun _ => l_extend kcls (cap (self w)) (Spec.elems (self w)) ((k', v') :: decode (id + 2) rest) = None) w3).
+    { intros w2 w3 Hw2 Hcap2 He2 Hs3 Hn3.
+      assert (Hlen : length (fst (fst (l_insert kcls (Spec.elems (self w)) k' v' false))) <= cap (self w)).
+      { rewrite <- He2, (elems_length _ Hw2), <- Hcap2. apply WF_len_le_cap. exact Hw2. }
+      assert (Hw3 : WF (self w3)) by (rewrite Hs3; exact Hw2).
+      eapply wp_mono; [apply (IH w3 Hw3) | |]; cbn beta; rewrite Hs3, Hn3, Hcap2, He2.
+      - intros _ w' (H1 & H2 & H3 & H4). split; [exact H1|]. split; [exact H2|].
+        split; [rewrite (l_extend_cons_ok kcls _ _ k' v' _ Hlen); exact H3|].
+        rewrite H4. cbn [length]. rewrite Nat2N.inj_succ. lia.
+      - intros _ H. rewrite (l_extend_cons_ok kcls _ _ k' v' _ Hlen). exact H. }
+    apply wp_bind.
+    eapply wp_mono; [apply (wp_conj _ _ _ _ _ _ (insert_exact (env_map sc) debug kcls qcls HL k' v' w1 Hw)
+                              (insert_lawful (env_map sc) debug kcls qcls HL k' v' w1 Hw)) | |]; cbn beta; rewrite Hs1.
+    + intros r w2 [(_ & Hc2 & _ & _ & _ & Hw2 & He2) (_ & Hcap2 & _)].
+      assert (Hn2 : next_id (cb w2) = (id + 2)%N) by (rewrite Hc2, entry_cb_next_id; exact Hn1).
+      destruct r as [v0|]; cbn [drop_opt_val].
+      * apply wp_bind.
+        eapply wp_mono; [apply (drop_val_cb (env_map sc) kcls qcls HL) | | intros ? []]; cbn beta.
+        intros _ w3 (Hs3 & _ & Hc3). apply (Hcont w2 w3 Hw2 Hcap2 He2 Hs3).
+        rewrite Hc3. cbn [env_map dropV snd]. exact Hn2.
+      * apply wp_bind. apply wp_ret. apply (Hcont w2 w2 Hw2 Hcap2 He2 eq_refl Hn2).
+    + intros w2 [(_ & _ & Hn & Hfull) _].
+      apply l_extend_cons_full; [exact Hn|]. rewrite (elems_length _ Hw). lia.
+Qed.
+
+(* hence, class by class: a class already stored keeps its key object, a new
+   class gets the FIRST decoded key object of that class; the value is the last
+   decoded one *)
+Lemma visit_map_keys debug sc items (w : world key vobj cstate) :
+  honest sc -> WF (self w) ->
+  wp (visit_map debug sc items)
+     (fun _ w' => bulk_keys kcls (Spec.elems (self w)) (Spec.elems (self w')) (decode (next_id (cb w)) items))
+     (fun _ => True) w.
+Proof.
+  intros Hh Hw.
+  eapply wp_mono; [apply (visit_map_is_extend debug sc items Hh w Hw) | | auto]; cbn beta.
+  intros _ w' (_ & _ & Hx & _). eapply bulk_keys_of_extend; exact Hx.
+Qed.
+
+(* ======================================================================== *)
+(* 12. the definitions used in the round-2 statements, unfolded               *)
+(* ======================================================================== *)
+Lemma obs_def {K V T A : Type} (r : res K V T A) :
+  obs r = match r with
+          | Ok a w => Some (Some a, self w, log w)
+          | Panic w => Some (None, self w, log w)
+          | UB => None
+          end.
+Proof. reflexivity. Qed.
+
+Lemma am_frame_def {K V : Type} (i : nat) (m m' : map K V) :
+  am_frame i m m' <->
+  (WF m' /\ cap m' = cap m /\ len m' = len m /\
+   List.map fst (Spec.elems m') = List.map fst (Spec.elems m) /\
+   forall j, j <> i -> nth_error (Spec.elems m') j = nth_error (Spec.elems m) j).
+Proof. reflexivity. Qed.
+
+Lemma rir_self_def {K V : Type} (m : map K V) (i : nat) :
+  rir_self m i =
+  if i =? len m - 1 then {| len := len m - 1; slots := upd (slots m) i None |}
+  else match nth_error (slots m) (len m - 1) with
+       | Some (Some q) => {| len := len m - 1;
+                             slots := upd (upd (upd (slots m) i None) (len m - 1) None) i (Some q) |}
+       | _ => m
+       end.
+Proof. reflexivity. Qed.
+
+Lemma rm_self_def {K V : Type} (ck : K -> N) (m : map K V) (c : N) :
+  rm_self ck m c = match find_idx ck c (Spec.elems m) with Some j => rir_self m j | None => m end.
+Proof. reflexivity. Qed.
+
+Lemma ins_self_def {K V : Type} (ck : K -> N) (m : map K V) (k : K) (v : V) (u : bool) :
+  ins_self ck m k v u =
+  match find_idx ck (ck k) (Spec.elems m) with
+  | Some i => match nth_error (Spec.elems m) i with
+              | Some (k0, v0) => set_slot_m m i (Some (if u then (k, v) else (k0, v)))
+              | None => m
+              end
+  | None => set_len_m (set_slot_m m (len m) (Some (k, v))) (S (len m))
+  end.
+Proof. reflexivity. Qed.
+
+(* the removed class is gone and every other class is where it was, stated for
+   rm_self (so that the equations with remove / remove_entry can be read without
+   unfolding it) *)
+Lemma rm_self_elems {K V : Type} (ck : K -> N) (m : map K V) (c : N) :
+  WF m -> Spec.elems (rm_self ck m c) = fst (l_remove ck (Spec.elems m) c).
+Proof.
+  intros Hw. unfold rm_self, l_remove.
+  destruct (find_idx ck c (Spec.elems m)) as [j|] eqn:Hf; [|reflexivity]. cbn [fst].
+  pose proof (find_idx_lt ck _ _ _ Hf) as Hj. rewrite (elems_length _ Hw) in Hj.
+  pose (w := {| cb := tt; log := []; self := m |} : world K V unit).
+  pose proof (remove_index_read_exact false j w Hw Hj) as H1.
+  pose proof (remove_index_read_elems false j w Hw Hj) as H2.
+  unfold wp in H1, H2. destruct (remove_index_read false j w) as [p w'|w'|]; try contradiction.
+  destruct H1 as (_ & Hs & _). destruct H2 as (_ & _ & _ & _ & _ & He). cbn [self w] in *.
+  rewrite <- Hs. exact He.
+Qed.
+
+Lemma bulk_keys_def {K V : Type} (ck : K -> N) (l l' items : list (K * V)) :
+  bulk_keys ck l l' items <->
+  ((forall c, lookup ck l' c = bulk_view ck c (lookup ck l c) items) /\
+   (forall c k0 v0, lookup ck l c = Some (k0, v0) -> exists v', lookup ck l' c = Some (k0, v')) /\
+   (forall c k1, lookup ck l c = None -> first_key ck c items = Some k1 ->
+                 exists v', lookup ck l' c = Some (k1, v'))).
+Proof. reflexivity. Qed.
+
+Lemma decode_def (id : N) (items : list (key * vobj)) :
+  decode id items =
+  match items with
+  | [] => []
+  | (k, v) :: rest =>
+      ({| kid := id; kcls := kcls k |}, {| vid := id + 1; vdat := vdat v |}) :: decode (id + 2) rest
+  end.
+Proof. destruct items as [|[k v] rest]; reflexivity. Qed.
